@@ -139,6 +139,7 @@ PROPS['C15'] = {
     'level_note': 'partial claim (fragment); a text without any newline is a known finding',
 }
 PROPS['C16'] = {
+    'e2': True,
     'explanation': 'fragment: for every sorted newline list (<= 4), text length and position inside the text, get_err_pos (as the driver composes it) returns the number, '
                    'start and end of the line containing the position',
     'bounds': '<= 4 newlines, text length < 4096, unwind 6',
@@ -161,6 +162,7 @@ PROPS['C12'] = {
     'level_note': 'trusted: Kani/CBMC/solver soundness; loader loop bound as stated',
 }
 PROPS['C08'] = {
+    'e2': True,
     'explanation': 'bookkeeping obligations only: (assembler) a code label is recorded as the index of the next emitted instruction, a procedure as the index of its first '
                    'instruction, the closing brace / RET emit exactly one "ret", CALL is accepted iff the name is a procedure; (interpreter) CALL pushes its index + 1 and '
                    'continues at the recorded index, RET resumes at the innermost pushed index (2 nested calls, arbitrary pre-existing frame), RET without CALL is an error value',
